@@ -142,6 +142,11 @@ struct Ctx {
         for (auto& [g, iv] : gen_iv)
             for (auto& r : s.resolver.log) if (r.seq <= iv.second && r.seq >= iv.first && r.seq_done > iv.second) iv.second = r.seq_done;
     }
+    // is some service generation other than `g` active at seq x?
+    bool other_gen_active(int g, uint64_t x) const {
+        for (auto& [k, iv] : gen_iv) if (k != g && iv.first <= x && iv.second >= x) return true;
+        return false;
+    }
     bool multi_gen_active(uint64_t a, uint64_t b) const {
         int n = 0;
         for (auto& [g, iv] : gen_iv) if (iv.first <= b && iv.second >= a) ++n;
